@@ -585,6 +585,14 @@ class Respondent(httping.Parsent):
             self.body = self.msg[:self.length]
             del self.msg[:self.length]
 
+            if self.evented:  # event stream of known length
+                self.eventSource.raw = self.body  # .body was replaced above
+                self.eventSource.parse()  # parse events here
+                if self.eventSource.retry is not None:
+                    self.retry = self.eventSource.retry
+                if self.eventSource.leid is not None:
+                    self.leid = self.eventSource.leid
+
         else:  # unknown content length so parse forever until closed
             while True:
                 if self.msg:
